@@ -773,7 +773,7 @@ func resultsFals() []fals {
 		}
 		return ts[r.Intn(len(ts))]
 	}
-	return []fals{
+	return append(resultsStrippedFals(), []fals{
 		{"a DeliverTx code changed", "result-code", func(r *rand.Rand, cc *chainCtx, resp interface{}) bool {
 			d := pick(r, resp)
 			if d == nil {
@@ -862,7 +862,63 @@ func resultsFals() []fals {
 			rr(resp).ValidatorUpdates = append(rr(resp).ValidatorUpdates, abci.UpdateValidator(ed25519.GenPrivKeyFromSecret([]byte("forged")).PubKey().Bytes(), 5, ""))
 			return true
 		}},
+	}...)
+}
+
+// resultsStrippedFals: the node withholds results instead of altering them.
+func resultsStrippedFals() []fals {
+	rr := func(resp interface{}) *ctypes.ResultBlockResults { return resp.(*ctypes.ResultBlockResults) }
+	forgeRest := func(res *ctypes.ResultBlockResults) {
+		res.BeginBlockEvents = append(res.BeginBlockEvents, abci.Event{Type: "forged"})
+		res.EndBlockEvents = nil
+		res.ValidatorUpdates = append(res.ValidatorUpdates, abci.UpdateValidator(ed25519.GenPrivKeyFromSecret([]byte("forged")).PubKey().Bytes(), 5, ""))
 	}
+	return []fals{
+		{"every DeliverTx result stripped (empty list)", "result-count", func(r *rand.Rand, cc *chainCtx, resp interface{}) bool {
+			if len(rr(resp).TxsResults) == 0 {
+				return false
+			}
+			rr(resp).TxsResults = []*abci.ResponseDeliverTx{}
+			return true
+		}},
+		{"every DeliverTx result stripped (list omitted)", "result-count", func(r *rand.Rand, cc *chainCtx, resp interface{}) bool {
+			if len(rr(resp).TxsResults) == 0 {
+				return false
+			}
+			rr(resp).TxsResults = nil
+			return true
+		}},
+		{"every DeliverTx result stripped; begin/end-block events and validator updates altered", "result-count", func(r *rand.Rand, cc *chainCtx, resp interface{}) bool {
+			if len(rr(resp).TxsResults) == 0 {
+				return false
+			}
+			rr(resp).TxsResults = nil
+			forgeRest(rr(resp))
+			return true
+		}},
+		{"first half of the DeliverTx results stripped", "result-count", func(r *rand.Rand, cc *chainCtx, resp interface{}) bool {
+			ts := rr(resp).TxsResults
+			if len(ts) < 2 {
+				return false
+			}
+			rr(resp).TxsResults = ts[len(ts)/2:]
+			return true
+		}},
+		{"all but the first DeliverTx result stripped", "result-count", func(r *rand.Rand, cc *chainCtx, resp interface{}) bool {
+			ts := rr(resp).TxsResults
+			if len(ts) < 2 {
+				return false
+			}
+			rr(resp).TxsResults = ts[:1]
+			return true
+		}},
+	}
+}
+
+// unchangedFals: the honest answer as it is, for requests whose honest answer no verified header can
+// commit to (the tip, a withheld successor): relaying even that is relaying something unverified.
+func unchangedFals() []fals {
+	return []fals{{"nothing changed (the honest answer)", "unchanged", func(r *rand.Rand, cc *chainCtx, resp interface{}) bool { return true }}}
 }
 
 // ---------------------------------------------------------------- ConsensusParams
